@@ -4,6 +4,11 @@ From Coq Require Import Lia ZArith.
 From BS Require Import Model.Base Model.Num Model.Arith Model.ExprParser Model.Script Model.Interp Model.Lint
      Proofs.InterpEq Proofs.C08 Proofs.C18.
 
+Section Ok.
+(* [ok = true]: statements lint calls POINTLESS may also be deleted (on the left), and then a run in which the MODEL declines
+   (OOracle) counts as undefined like a run out of fuel.  [ok = false]: labels only, the stronger statement. *)
+Variable ok : bool.
+
 (* ================= related statement lists ================= *)
 (* [drel SR used c c']: c and c' are the same list up to (i) SR-related statements and (ii) labels l with [used l = false]
    present on one side only; on the right such a label stands alone (it is followed by a kept statement or the end) *)
@@ -11,6 +16,7 @@ Inductive drel (SR : stmt -> stmt -> Prop) (used : str -> bool) : list stmt -> l
 | dr_nil : drel SR used [] []
 | dr_keep s s' t t' : SR s s' -> drel SR used t t' -> drel SR used (s :: t) (s' :: t')
 | dr_skipl l t t' : used l = false -> drel SR used t t' -> drel SR used (SLabel l :: t) t'
+| dr_skipl_pure e t t' : ok = true -> pointless e = true -> drel SR used t t' -> drel SR used (SExpr None e :: t) t'
 | dr_skipr_keep l s s' t t' : used l = false -> SR s s' -> drel SR used t t' -> drel SR used (s :: t) (SLabel l :: s' :: t')
 | dr_skipr_nil l : used l = false -> drel SR used [] [SLabel l].
 
@@ -31,7 +37,7 @@ Lemma drel_mono (SR SR' : stmt -> stmt -> Prop) used : (forall s s', SR s s' -> 
   forall c c', drel SR used c c' -> drel SR' used c c'.
 Proof.
   intros H c c' D.
-  induction D; [apply dr_nil|apply dr_keep; auto|apply dr_skipl; auto|apply dr_skipr_keep; auto|apply dr_skipr_nil; auto].
+  induction D; [apply dr_nil|apply dr_keep; auto|apply dr_skipl; auto|apply dr_skipl_pure; auto|apply dr_skipr_keep; auto|apply dr_skipr_nil; auto].
 Qed.
 
 Lemma drel_refl (SR : stmt -> stmt -> Prop) used : (forall s, SR s s) -> forall c, drel SR used c c.
@@ -96,10 +102,12 @@ Proof.
       + intros n ->. destruct (str_eqb n l) eqn:E; [|reflexivity]. apply str_eqb_eq in E. subst. exfalso; apply Hd. apply H2. reflexivity.
       + rewrite E1, E2. destruct IH as [IH|(k & k' & Ha & Hb & Hc)]; [left; exact IH|].
         right. exists (S k), (S k'). rewrite Ha, Hb. split; [f_equal; lia|]. split; [f_equal; lia|]. exact Hc. }
-  induction D as [|s s' t t' Hs D IH|l0 t t' H0 D IH|l0 s s' t t' H0 Hs D IH|l0 H0]; intros i i'.
+  induction D as [|s s' t t' Hs D IH|l0 t t' H0 D IH|e0 t t' Hok He0 D IH|l0 s s' t t' H0 Hs D IH|l0 H0]; intros i i'.
   - left. split; reflexivity.
   - apply Hhead; [exact Hs|apply IH|exact D].
   - cbn [find_from]. rewrite (Hne _ H0). destruct (IH (S i) i') as [IH'|(k & k' & Ha & Hb & Hc)]; [left; exact IH'|].
+    right. exists (S k), k'. rewrite Ha, Hb. split; [f_equal; lia|]. split; [reflexivity|exact Hc].
+  - cbn [find_from]. destruct (IH (S i) i') as [IH'|(k & k' & Ha & Hb & Hc)]; [left; exact IH'|].
     right. exists (S k), k'. rewrite Ha, Hb. split; [f_equal; lia|]. split; [reflexivity|exact Hc].
   - assert (E : find_from l (SLabel l0 :: s' :: t') i' = find_from l (s' :: t') (S i')). { cbn [find_from]. rewrite (Hne _ H0). reflexivity. }
     rewrite E. destruct (Hhead s s' t t' i (S i') Hs (IH (S i) (S (S i'))) D) as [H|(k & k' & Ha & Hb & Hc)]; [left; exact H|].
@@ -187,12 +195,17 @@ Proof.
 Qed.
 
 (* ================= "the left run, if it finishes within its fuel, is what the right run does" ================= *)
-Definition Sim2 (r r' : outcome * world) : Prop := fst r = OFuel \/ (fst r' = fst r /\ wrel (snd r) (snd r')).
+(* the left run tells nothing: it ran out of fuel, or (ok = true only) the model declined *)
+Definition undef (o : outcome) : Prop := o = OFuel \/ (ok = true /\ o = OOracle).
+Definition undefL (r : Interp.lres) : Prop := r = LFuel \/ (ok = true /\ r = LOracle).
+Definition Sim2 (r r' : outcome * world) : Prop := undef (fst r) \/ (fst r' = fst r /\ wrel (snd r) (snd r')).
 Definition Sim3 (r r' : xres) : Prop :=
-  fst (fst r) = OFuel \/ (fst (fst r') = fst (fst r) /\ snd (fst r') = snd (fst r) /\ wrel (snd r) (snd r')).
-Definition SimL (r r' : Interp.lres * world) : Prop := fst r = LFuel \/ (fst r' = fst r /\ wrel (snd r) (snd r')).
-Definition SimA (r r' : (outcome + list value) * world) : Prop := fst r = inl OFuel \/ (fst r' = fst r /\ wrel (snd r) (snd r')).
-Definition SimI (r r' : option outcome * world) : Prop := fst r = Some OFuel \/ (fst r' = fst r /\ wrel (snd r) (snd r')).
+  undef (fst (fst r)) \/ (fst (fst r') = fst (fst r) /\ snd (fst r') = snd (fst r) /\ wrel (snd r) (snd r')).
+Definition SimL (r r' : Interp.lres * world) : Prop := undefL (fst r) \/ (fst r' = fst r /\ wrel (snd r) (snd r')).
+Definition SimA (r r' : (outcome + list value) * world) : Prop :=
+  (exists o, fst r = inl o /\ undef o) \/ (fst r' = fst r /\ wrel (snd r) (snd r')).
+Definition SimI (r r' : option outcome * world) : Prop :=
+  (exists o, fst r = Some o /\ undef o) \/ (fst r' = fst r /\ wrel (snd r) (snd r')).
 
 Definition evsim (a b : evalT) : Prop := forall e loc bi um w w', wrel w w' -> Sim2 (a e loc bi um w) (b e loc bi um w').
 Definition clsim (a b : callT) : Prop := forall fv x um w w', wrel w w' -> Sim2 (a fv x um w) (b fv x um w').
@@ -228,10 +241,18 @@ Definition lib_sim : Prop :=
 Hypothesis Hlib : lib_sim.
 
 (* run the sub-computation [t] (left) / its counterpart: either the left one ran out of fuel (done), or both agree *)
+Ltac undef_close := first
+  [ left; left; reflexivity
+  | left; right; split; [assumption|reflexivity]
+  | left; eexists; split; [reflexivity|left; reflexivity]
+  | left; eexists; split; [reflexivity|right; split; [assumption|reflexivity]] ].
+
 Ltac sub H :=
-  let Hf := fresh "Hf" in let Ho := fresh "Ho" in let Hr := fresh "Hr" in
-  destruct H as [Hf|[Ho Hr]];
-  [ match type of Hf with fst ?t = _ => destruct t as [? ?] end; cbn [fst snd] in Hf; subst; cbn; try (left; reflexivity)
+  let Hf := fresh "Hf" in let Hk := fresh "Hk" in let Ho := fresh "Ho" in let Hr := fresh "Hr" in
+  let o1 := fresh "ou" in let w1 := fresh "wu" in
+  destruct H as [[Hf|[Hk Hf]]|[Ho Hr]];
+  [ match type of Hf with fst ?t = _ => destruct t as [o1 w1] end; cbn [fst snd] in Hf; subst o1; cbn; try undef_close
+  | match type of Hf with fst ?t = _ => destruct t as [o1 w1] end; cbn [fst snd] in Hf; subst o1; cbn; try undef_close
   | match type of Ho with fst ?t' = fst ?t => destruct t as [? ?], t' as [? ?] end; cbn [fst snd] in Ho, Hr; subst ].
 
 Lemma eval_args_sim ev ev' loc bi um : evsim ev ev' ->
@@ -257,8 +278,11 @@ Proof.
         right. split; [reflexivity|exact Hr].
       * rewrite (truthy_rel _ _ (VBool false) Hw). destruct (if truthy w' (VBool false) then nth_error args 1 else nth_error args 2) as [re|]; [apply Hev; exact Hw|].
         right. split; [reflexivity|exact Hw].
-    + pose proof (eval_args_sim ev ev' loc bi um Hev args w w' [] Hw) as H. sub H.
-      destruct s as [o|vs]; [destruct o; try (left; reflexivity); right; split; try reflexivity; exact Hr|].
+    + pose proof (eval_args_sim ev ev' loc bi um Hev args w w' [] Hw) as H.
+      destruct H as [(ou & Hf & Hu)|[Ho Hr]].
+      { destruct (eval_args ev loc bi um args w []) as [r1 wu]. cbn in Hf. subst r1. left. exact Hu. }
+      destruct (eval_args ev loc bi um args w []) as [s w0], (eval_args ev' loc bi um args w' []) as [s' w1]. cbn [fst snd] in Ho, Hr. subst s'.
+      destruct s as [o|vs]; [right; split; [reflexivity|exact Hr]|].
       rewrite (lookup_fn_rel _ _ _ _ _ Hr). destruct (lookup_fn name loc bi w1) as [fv|]; [|right; split; [reflexivity|exact Hr]].
       assert (Hc : Sim2 (match cl fv vs um w0 with (OExc ret msg, w2) => (OVal ret, log_if cfg (c_debug cfg) w2 (msg_fn_failed name msg)) | other => other end)
                         (match cl' fv vs um w1 with (OExc ret msg, w2) => (OVal ret, log_if cfg (c_debug cfg) w2 (msg_fn_failed name msg)) | other => other end)).
@@ -288,7 +312,7 @@ Proof.
   - pose proof (Hlib (fun fv' args' w0 => cl fv' args' um w0) (fun fv' args' w0 => cl' fv' args' um w0)
                      (fun fv' a' w0 w0' H0 => Hcl fv' a' um w0 w0' H0) name a w w' Hw) as H.
     destruct H as [Hf|[Ho Hr]].
-    + destruct (lib _ name a w) as [r w1]. cbn in Hf. subst r. left. reflexivity.
+    + destruct (lib _ name a w) as [r w1]. cbn in Hf. destruct Hf as [->|[Hk ->]]; [left; left; reflexivity|left; right; split; [exact Hk|reflexivity]].
     + destruct (lib (fun fv' args' w0 => cl fv' args' um w0) name a w) as [r w1],
                (lib (fun fv' args' w0 => cl' fv' args' um w0) name a w') as [r' w1']. cbn in Ho, Hr. subst r'.
       destruct r; right; (split; [reflexivity|exact Hr]).
@@ -306,7 +330,7 @@ Proof.
       destruct Hb as (used & Hcov & D). apply (drel_mono eq stmt_rel) in D; [|intros s0 s0' ->; left; reflexivity].
       pose proof (Hex used (fd_body fd) (fd_body fd') 0 0 [] [] (Some locals) um w1 w1' Hcov D D (cache_ok_nil _) (cache_ok_nil _) R) as H.
       destruct H as [Hf|(Ho & _ & Hr)].
-      * destruct (ex (fd_body fd) 0 [] (Some locals) um w1) as [[o l1] w2]. cbn in Hf. subst o. left. reflexivity.
+      * destruct (ex (fd_body fd) 0 [] (Some locals) um w1) as [[o l1] w2]. cbn in Hf. left. exact Hf.
       * destruct (ex (fd_body fd) 0 [] (Some locals) um w1) as [[o l1] w2], (ex' (fd_body fd') 0 [] (Some locals) um w1') as [[o' l1'] w2'].
         cbn in Ho, Hr. subst o'. right. split; [reflexivity|exact Hr].
     + assert (E' : nth_error (w_funs w') id = None).
@@ -339,7 +363,8 @@ Proof.
                   (drel_refl _ _ (fun s0 => or_introl eq_refl) sc) (drel_refl _ _ (fun s0 => or_introl eq_refl) sc)
                   (cache_ok_nil _) (cache_ok_nil _) R2) as H.
   destruct H as [Hf|(Ho & _ & Hr)].
-  - destruct (ex sc 0 [] None (UBase url) w2) as [[o l1] w3]. cbn in Hf. subst o. left. reflexivity.
+  - destruct (ex sc 0 [] None (UBase url) w2) as [[o l1] w3]. cbn in Hf. left. exists o.
+    destruct Hf as [->|[Hk ->]]; (split; [reflexivity|]); [left; reflexivity|right; split; [exact Hk|reflexivity]].
   - destruct (ex sc 0 [] None (UBase url) w2) as [[o l1] w3], (ex' sc 0 [] None (UBase url) w2') as [[o' l1'] w3'].
     cbn in Ho, Hr. subst o'. destruct o; try (right; split; [reflexivity|exact Hr]). apply IH. exact Hr.
 Qed.
@@ -416,7 +441,7 @@ Proof.
     + (* SInclude *)
       pose proof (run_incs_sim ex ex' um Hex incs w0 w0' R0) as H.
       destruct H as [Hf|[Ho Hr]].
-      * destruct (run_incs cfg url_rel lint_lines ex um incs w0) as [r w1]. cbn in Hf. subst r. left. reflexivity.
+      * destruct (run_incs cfg url_rel lint_lines ex um incs w0) as [r w1]. cbn in Hf. destruct Hf as (ou & -> & Hu). left. exact Hu.
       * destruct (run_incs cfg url_rel lint_lines ex um incs w0) as [r w1], (run_incs cfg url_rel lint_lines ex' um incs w0') as [r' w1'].
         cbn in Ho, Hr. subst r'. destruct r as [o|]; [right; split; [reflexivity|split; [reflexivity|exact Hr]]|apply (Hex used); auto].
   - (* SFunction over related bodies *)
@@ -426,9 +451,74 @@ Proof.
     + apply Forall2_app; [exact Hfu|]. constructor; [|constructor]. repeat split. exact Hb.
 Qed.
 
+(* ---- a pointless expression evaluates without effect and without raising ---- *)
+Definition benign (o : outcome) : Prop := match o with OVal _ | OFuel | OOracle => True | _ => False end.
+
+Lemma of_ares_benign r : benign (of_ares r).
+Proof. destruct r; exact I. Qed.
+Lemma relop_benign w a b t : benign (relop w a b t).
+Proof. unfold relop. destruct (vcompare _ w a b); exact I. Qed.
+Lemma concat_str_benign l r b : benign (concat_str l r b).
+Proof. destruct r; exact I. Qed.
+Lemma date_add_ms_benign us n : benign (date_add_ms us n).
+Proof.
+  unfold date_add_ms. destruct (match n with NInt z => Some z | NFlt f => sf_integral f end).
+  - destruct (_ <=? _)%Z; try exact I. destruct (_ && _)%bool; exact I.
+  - destruct n; try exact I. destruct (sf_is_finite f); exact I.
+Qed.
+Lemma date_sub_benign a b : benign (date_sub a b).
+Proof. unfold date_sub. cbv zeta. destruct (sf_trunc _); exact I. Qed.
+
+(* the operators never raise (C05 binop_no_exc) and never end the script: value, or the model's fuel / decline outcome *)
+Lemma binop_benign op w a b : benign (binop op w a b).
+Proof.
+  unfold binop.
+  repeat match goal with |- benign (if ?c then _ else _) => destruct c end;
+    try apply relop_benign;
+    repeat match goal with
+           | |- benign (of_ares _) => apply of_ares_benign
+           | |- benign (concat_str _ _ _) => apply concat_str_benign
+           | |- benign (date_add_ms _ _) => apply date_add_ms_benign
+           | |- benign (date_sub _ _) => apply date_sub_benign
+           | |- benign (match ?x with _ => _ end) => destruct x
+           | |- _ => exact I
+           end.
+Qed.
+
 Notation exec := (exec cfg lib url_rel lint_lines).
 Notation eval := (eval cfg lib url_rel lint_lines).
 Notation call := (call cfg lib url_rel lint_lines).
+
+Lemma pointless_eval : forall f e loc bi um w, pointless e = true ->
+  exists o, eval f e loc bi um w = (o, w) /\ benign o.
+Proof.
+  induction f as [|f IH]; intros e loc bi um w Hp; [exists OFuel; split; [reflexivity|exact I]|].
+  rewrite eval_S. destruct e as [n|s|x|name args|op l r|op e1|e1]; cbn [eval_body]; cbn in Hp; try discriminate.
+  - eexists; split; [reflexivity|exact I].
+  - eexists; split; [reflexivity|exact I].
+  - eexists; split; [reflexivity|exact I].
+  - apply andb_prop in Hp. destruct Hp as [Hl Hr].
+    destruct (IH l loc bi um w Hl) as (ol & -> & Bl). destruct ol; try destruct Bl; try (eexists; split; [reflexivity|exact I]).
+    destruct (IH r loc bi um w Hr) as (or' & Er & Br).
+    destruct (op_is op "&&"). { destruct (truthy w v); [rewrite Er; eauto|eexists; split; [reflexivity|exact I]]. }
+    destruct (op_is op "||"). { destruct (truthy w v); [eexists; split; [reflexivity|exact I]|rewrite Er; eauto]. }
+    rewrite Er. destruct or'; try destruct Br; try (eexists; split; [reflexivity|exact I]).
+    eexists; split; [reflexivity|apply binop_benign].
+  - destruct (IH e1 loc bi um w Hp) as (o1 & -> & B1). destruct o1; try destruct B1; eexists; (split; [reflexivity|exact I]).
+  - apply IH. exact Hp.
+Qed.
+
+(* a pointless expression statement: one step, no effect *)
+Lemma exec_pointless_step f c pc cache loc um w e :
+  nth_error c pc = Some (SExpr None e) -> pointless e = true ->
+  let w0 := upd_count w (w_count w + 1) in
+  exec (S f) c pc cache loc um w = exec f c (S pc) cache loc um w0 \/
+  (exists o, exec (S f) c pc cache loc um w = (o, loc, w0) /\ (o = OFuel \/ o = OOracle)).
+Proof.
+  intros H Hp. cbv zeta. rewrite exec_S. unfold exec_body. rewrite H, Hmax. cbn [andb Z.ltb Z.compare]. cbv zeta.
+  destruct (pointless_eval f e loc false um (upd_count w (w_count w + 1)) Hp) as (o & -> & B).
+  destruct o; try destruct B; [left; reflexivity|right; eexists; split; [reflexivity|auto]..].
+Qed.
 
 (* a label step: the statement at pc is a label *)
 Lemma exec_label_step f c pc cache loc um w l :
@@ -443,19 +533,24 @@ Theorem sim_all : forall f f', 2 * f <= f' ->
   evsim (eval f) (eval f') /\ clsim (call f) (call f') /\ exsim (exec f) (exec f').
 Proof.
   induction f as [|f IH]; intros f' Hle.
-  - repeat split; intro; intros; left; reflexivity.
+  - repeat split; intro; intros; left; left; reflexivity.
   - destruct f' as [|f1]; [lia|]. destruct (IH f1 ltac:(lia)) as (He & Hc & Hx). split; [|split].
     + intros e loc bi um w w' Hw. rewrite !eval_S. apply eval_body_sim; assumption.
     + intros fv a um w w' Hw. rewrite !call_S. apply call_body_sim; assumption.
     + intros used c c' pc pc' cache cache' loc um w w' Hcov D Dpc Hcc Hcc' Hw.
       remember (skipn pc c) as sc eqn:Es. remember (skipn pc' c') as sc' eqn:Es'. symmetry in Es, Es'.
-      destruct Dpc as [|s s' t t' Hs Dt|l t t' Hl Dt|l s s' t t' Hl Hs Dt|l Hl].
+      destruct Dpc as [|s s' t t' Hs Dt|l t t' Hl Dt|e0 t t' Hok He0 Dt|l s s' t t' Hl Hs Dt|l Hl].
       * rewrite !exec_end_step by assumption. right; split; [reflexivity|split; [reflexivity|exact Hw]].
       * rewrite !exec_S. eapply exec_body_keep; eauto.
       * (* a label only the left list has *)
         rewrite (exec_label_step f c pc cache loc um w l) by (rewrite nth_error_skipn, Es; reflexivity).
         destruct (IH (S f1) ltac:(lia)) as (_ & _ & Hx'). apply (Hx' used); auto; try (apply wrel_count_l; exact Hw).
         rewrite skipn_S_tl, Es, Es'. exact Dt.
+      * (* a pointless statement only the left list has (ok = true) *)
+        destruct (exec_pointless_step f c pc cache loc um w e0) as [E|(o & E & Ho)]; [rewrite nth_error_skipn, Es; reflexivity|exact He0| |].
+        -- rewrite E. destruct (IH (S f1) ltac:(lia)) as (_ & _ & Hx'). apply (Hx' used); auto; try (apply wrel_count_l; exact Hw).
+           rewrite skipn_S_tl, Es, Es'. exact Dt.
+        -- rewrite E. left. destruct Ho as [-> | ->]; [left; reflexivity|right; split; [exact Hok|reflexivity]].
       * (* a label only the right list has, followed by the counterpart of the left statement *)
         destruct f1 as [|f2]; [lia|]. destruct (IH f2 ltac:(lia)) as (He2 & _ & Hx2).
         rewrite (exec_label_step (S f2) c' pc' cache' loc um w' l) by (rewrite nth_error_skipn, Es'; reflexivity).
@@ -564,7 +659,7 @@ Proof. repeat split. induction (w_funs w); constructor; [apply fdrel_refl|assump
 (* related scripts behave alike: a run of c that finishes within fuel f is the run of c' (result, log, globals, heap, fetches;
    statementCount and the bodies stored for script functions excepted) *)
 Theorem related_scripts_run_alike : forall c c', code_rel c c' ->
-  forall f w o w1, run f c w = (o, w1) -> o <> OFuel ->
+  forall f w o w1, run f c w = (o, w1) -> ~ undef o ->
   exists w1', run (2 * f) c' w = (o, w1') /\ wrel w1 w1'.
 Proof.
   intros c c' (used & Hcov & D) f w o w1 H Ho. unfold execute_script in *.
@@ -573,14 +668,14 @@ Proof.
   specialize (Hx used c c' 0 0 [] [] None UHost w0 w0 Hcov D D (cache_ok_nil _) (cache_ok_nil _) (wrel_refl w0)).
   destruct (Interp.exec cfg lib url_rel lint_lines f c 0 [] None UHost w0) as [[o1 l1] w2].
   destruct (Interp.exec cfg lib url_rel lint_lines (2 * f) c' 0 [] None UHost w0) as [[o1' l1'] w2'].
-  injection H as -> ->. destruct Hx as [Hf|(Ho' & _ & Hr)]; cbn [fst snd] in *; [congruence|]. subst o1'. exists w2'. split; [reflexivity|exact Hr].
+  injection H as -> ->. destruct Hx as [Hf|(Ho' & _ & Hr)]; cbn [fst snd] in *; [exfalso; apply Ho; exact Hf|]. subst o1'. exists w2'. split; [reflexivity|exact Hr].
 Qed.
 
 (* C18, unused GLOBAL label: deleting the statement lint points at changes no run, in either direction *)
 Theorem unused_global_label_delete : forall s l i, In (WUnusedLabel l i) (lint s) ->
   nth_error s i = Some (SLabel l) /\
-  (forall f w o w1, run f s w = (o, w1) -> o <> OFuel -> exists w1', run (2 * f) (remove_at i s) w = (o, w1') /\ wrel w1 w1') /\
-  (forall f w o w1, run f (remove_at i s) w = (o, w1) -> o <> OFuel -> exists w1', run (2 * f) s w = (o, w1') /\ wrel w1 w1').
+  (forall f w o w1, run f s w = (o, w1) -> ~ undef o -> exists w1', run (2 * f) (remove_at i s) w = (o, w1') /\ wrel w1 w1') /\
+  (forall f w o w1, run f (remove_at i s) w = (o, w1) -> ~ undef o -> exists w1', run (2 * f) s w = (o, w1') /\ wrel w1 w1').
 Proof.
   intros s l i H. apply unused_label_global_iff in H. destruct H as [Hf Hl].
   destruct (delete_unused_label_rel stmt_rel s l i (fun s0 => or_introl eq_refl) Hf Hl) as [R1 R2].
@@ -591,8 +686,8 @@ Qed.
 Theorem unused_fn_label_delete : forall s l fn i, In (WFnUnusedLabel l fn i) (lint s) ->
   exists k args a b body, nth_error s k = Some (SFunction fn args a b body) /\ nth_error body i = Some (SLabel l) /\
   let s' := set_body s k (remove_at i body) in
-  (forall f w o w1, run f s w = (o, w1) -> o <> OFuel -> exists w1', run (2 * f) s' w = (o, w1') /\ wrel w1 w1') /\
-  (forall f w o w1, run f s' w = (o, w1) -> o <> OFuel -> exists w1', run (2 * f) s w = (o, w1') /\ wrel w1 w1').
+  (forall f w o w1, run f s w = (o, w1) -> ~ undef o -> exists w1', run (2 * f) s' w = (o, w1') /\ wrel w1 w1') /\
+  (forall f w o w1, run f s' w = (o, w1) -> ~ undef o -> exists w1', run (2 * f) s w = (o, w1') /\ wrel w1 w1').
 Proof.
   intros s l fn i H. apply unused_label_fn_iff in H. destruct H as (k & args & a & b & body & Hn & Hf & Hl).
   exists k, args, a, b, body. split; [exact Hn|]. split; [apply (find_label_first _ _ _ Hf)|].
@@ -602,6 +697,37 @@ Proof.
   - exists (fun l0 => jumps_to l0 s). split; [apply covers_jumps_to|exact D1].
   - exists (fun l0 => jumps_to l0 s). split; [|apply D2; exact R2].
     intros j l0 cond Hj. apply (covers_jumps_to s j l0 cond). eapply covers_set_body; exact Hj.
+Qed.
+
+(* C18, pointless statement (ok = true): deleting the statement lint points at does not change a run that finishes in the model *)
+Lemma drel_delete_pure (SR : stmt -> stmt -> Prop) used e : (forall s, SR s s) -> ok = true -> pointless e = true ->
+  forall c i, nth_error c i = Some (SExpr None e) -> drel SR used c (remove_at i c).
+Proof.
+  intros Hrefl Hok Hp. induction c as [|x t IH]; intros i Hn; [destruct i; discriminate|].
+  destruct i as [|i]; cbn in Hn.
+  - injection Hn as ->. unfold remove_at. cbn. apply dr_skipl_pure; [exact Hok|exact Hp|apply drel_refl; exact Hrefl].
+  - rewrite remove_at_cons. apply dr_keep; auto.
+Qed.
+
+Theorem pointless_global_delete : ok = true -> forall s i, In (WPointless i) (lint s) ->
+  exists e, nth_error s i = Some (SExpr None e) /\
+  forall f w o w1, run f s w = (o, w1) -> ~ undef o -> exists w1', run (2 * f) (remove_at i s) w = (o, w1') /\ wrel w1 w1'.
+Proof.
+  intros Hok s i H. apply pointless_global_iff in H. destruct H as (e & Hn & Hp). exists e. split; [exact Hn|].
+  apply related_scripts_run_alike. exists (fun l0 => jumps_to l0 s). split; [apply covers_jumps_to|].
+  apply (drel_delete_pure stmt_rel _ e); auto. intros s0. left; reflexivity.
+Qed.
+
+Theorem pointless_fn_delete : ok = true -> forall s fn i, In (WFnPointless fn i) (lint s) ->
+  exists k args a b body e, nth_error s k = Some (SFunction fn args a b body) /\ nth_error body i = Some (SExpr None e) /\
+  forall f w o w1, run f s w = (o, w1) -> ~ undef o ->
+    exists w1', run (2 * f) (set_body s k (remove_at i body)) w = (o, w1') /\ wrel w1 w1'.
+Proof.
+  intros Hok s fn i H. apply pointless_fn_iff in H. destruct H as (k & args & a & b & body & e & Hn & Hb & Hp).
+  exists k, args, a, b, body, e. split; [exact Hn|]. split; [exact Hb|].
+  apply related_scripts_run_alike. exists (fun l0 => jumps_to l0 s). split; [apply covers_jumps_to|].
+  eapply set_body_rel; [exact Hn|]. exists (fun l0 => jumps_to l0 body). split; [apply covers_jumps_to|].
+  apply (drel_delete_pure eq _ e); auto.
 Qed.
 
 End Run.
@@ -627,7 +753,7 @@ Proof.
   intros cb cb' Hcb name args w w' Hw. unfold toy_lib. destruct (op_is name "apply").
   - destruct args as [|fv rest]; [right; split; [reflexivity|exact Hw]|].
     destruct (Hcb fv rest w w' Hw) as [Hf|[Ho Hr]].
-    + destruct (cb fv rest w) as [o w1]. cbn in Hf. subst o. left. reflexivity.
+    + destruct (cb fv rest w) as [o w1]. cbn in Hf. destruct Hf as [->|[Hk ->]]; [left; left; reflexivity|left; right; split; [exact Hk|reflexivity]].
     + destruct (cb fv rest w) as [o w1], (cb' fv rest w') as [o' w1']. cbn in Ho, Hr. subst o'.
       destruct o; try (right; split; [reflexivity|exact Hr]).
       right. split; [reflexivity|]. apply wrel_add_log. exact Hr.
@@ -638,4 +764,98 @@ Example unused_label_demo :
   let s := [SJump (U "b") None; SLabel (U "a"); SLabel (U "b"); SExpr (Some (U "x")) (ENum (NInt 1))] in
   In (WUnusedLabel (U "a") 1) (lint s) /\
   remove_at 1 s = [SJump (U "b") None; SLabel (U "b"); SExpr (Some (U "x")) (ENum (NInt 1))].
+Proof. vm_compute. split; [tauto|reflexivity]. Qed.
+
+End Ok.
+
+Lemma undef_false o : undef false o <-> o = OFuel.
+Proof. unfold undef. split; [intros [H|[H _]]; [exact H|discriminate]|auto]. Qed.
+Lemma undef_true o : undef true o <-> o = OFuel \/ o = OOracle.
+Proof. unfold undef. split; [intros [H|[_ H]]; auto|intros [H|H]; auto]. Qed.
+
+(* ================= the statements of Props/C18.v ================= *)
+Section Final.
+Variable cfg : config.
+Variable lib : caller -> str -> list value -> world -> Interp.lres * world.
+Variable url_rel : str -> str -> str.
+Variable lint_lines : script -> list str.
+Hypothesis Hmax : c_max cfg = 0%Z.
+Notation run := (execute_script cfg lib url_rel lint_lines).
+
+(* [run_le ok c c']: every run of c that finishes (within its fuel, and — for ok = true — without the model declining) is matched
+   by the run of c' with twice the fuel: same outcome, related final worlds *)
+Definition run_le (ok : bool) (c c' : script) : Prop :=
+  forall f w o w1, run f c w = (o, w1) -> o <> OFuel -> (ok = true -> o <> OOracle) ->
+  exists w1', run (2 * f) c' w = (o, w1') /\ wrel ok w1 w1'.
+
+Lemma run_le_of ok c c' : lib_sim ok lib -> code_rel ok c c' -> run_le ok c c'.
+Proof.
+  intros Hlib R f w o w1 H H1 H2. eapply (related_scripts_run_alike ok cfg lib url_rel lint_lines Hmax Hlib c c' R); [exact H|].
+  intros [Hu|[Hk Hu]]; [exact (H1 Hu)|exact (H2 Hk Hu)].
+Qed.
+
+Theorem final_related_scripts : forall ok, lib_sim ok lib -> forall c c', code_rel ok c c' -> run_le ok c c'.
+Proof. intros. apply run_le_of; assumption. Qed.
+
+Theorem final_unused_label_delete : lib_sim false lib ->
+  forall s l i, In (WUnusedLabel l i) (lint s) ->
+  nth_error s i = Some (SLabel l) /\ run_le false s (remove_at i s) /\ run_le false (remove_at i s) s.
+Proof.
+  intros Hlib s l i H. apply unused_label_global_iff in H. destruct H as [Hf Hl].
+  destruct (delete_unused_label_rel false (stmt_rel false) s l i (fun s0 => or_introl eq_refl) Hf Hl) as [R1 R2].
+  split; [apply (find_label_first _ _ _ Hf)|]. split; apply run_le_of; assumption.
+Qed.
+
+Theorem final_unused_fn_label_delete : lib_sim false lib ->
+  forall s l fn i, In (WFnUnusedLabel l fn i) (lint s) ->
+  exists k args a b body, nth_error s k = Some (SFunction fn args a b body) /\ nth_error body i = Some (SLabel l) /\
+    run_le false s (set_body s k (remove_at i body)) /\ run_le false (set_body s k (remove_at i body)) s.
+Proof.
+  intros Hlib s l fn i H. apply unused_label_fn_iff in H. destruct H as (k & args & a & b & body & Hn & Hf & Hl).
+  exists k, args, a, b, body. split; [exact Hn|]. split; [apply (find_label_first _ _ _ Hf)|].
+  destruct (delete_unused_label_rel false eq body l i (fun s0 => eq_refl) Hf Hl) as [R1 R2].
+  destruct (set_body_rel false (fun l0 => jumps_to l0 s) s k fn args a b body (remove_at i body) Hn R1) as [D1 D2].
+  split; apply run_le_of; try assumption.
+  - exists (fun l0 => jumps_to l0 s). split; [apply covers_jumps_to|exact D1].
+  - exists (fun l0 => jumps_to l0 s). split; [|apply D2; exact R2].
+    intros j l0 cond Hj. apply (covers_jumps_to s j l0 cond). eapply covers_set_body; exact Hj.
+Qed.
+
+Theorem final_pointless_delete_partial : lib_sim true lib ->
+  forall s i, In (WPointless i) (lint s) ->
+  exists e, nth_error s i = Some (SExpr None e) /\ pointless e = true /\ run_le true s (remove_at i s).
+Proof.
+  intros Hlib s i H. apply pointless_global_iff in H. destruct H as (e & Hn & Hp). exists e. split; [exact Hn|]. split; [exact Hp|].
+  apply run_le_of; [exact Hlib|]. exists (fun l0 => jumps_to l0 s). split; [apply covers_jumps_to|].
+  apply (drel_delete_pure true (stmt_rel true) _ e); auto. intros s0. left; reflexivity.
+Qed.
+
+Theorem final_pointless_fn_delete_partial : lib_sim true lib ->
+  forall s fn i, In (WFnPointless fn i) (lint s) ->
+  exists k args a b body e, nth_error s k = Some (SFunction fn args a b body) /\ nth_error body i = Some (SExpr None e) /\
+    pointless e = true /\ run_le true s (set_body s k (remove_at i body)).
+Proof.
+  intros Hlib s fn i H. apply pointless_fn_iff in H. destruct H as (k & args & a & b & body & e & Hn & Hb & Hp).
+  exists k, args, a, b, body, e. split; [exact Hn|]. split; [exact Hb|]. split; [exact Hp|].
+  apply run_le_of; [exact Hlib|]. exists (fun l0 => jumps_to l0 s). split; [apply covers_jumps_to|].
+  eapply set_body_rel; [exact Hn|]. exists (fun l0 => jumps_to l0 body). split; [apply covers_jumps_to|].
+  apply (drel_delete_pure true eq _ e); auto.
+Qed.
+
+End Final.
+
+Lemma final_run_le_means : forall cfg lib url_rel lint_lines ok c c',
+  run_le cfg lib url_rel lint_lines ok c c' <->
+  forall f w o w1, execute_script cfg lib url_rel lint_lines f c w = (o, w1) -> o <> OFuel -> (ok = true -> o <> OOracle) ->
+  exists w1', execute_script cfg lib url_rel lint_lines (2 * f) c' w = (o, w1') /\ wrel ok w1 w1'.
+Proof. intros. reflexivity. Qed.
+
+(* evaluating a pointless expression changes nothing and cannot raise or end the script (for EVERY library: it makes no call) *)
+Theorem final_pointless_eval : forall cfg lib url_rel lint_lines f e loc bi um w, pointless e = true ->
+  exists o, Interp.eval cfg lib url_rel lint_lines f e loc bi um w = (o, w) /\ benign o.
+Proof. intros. apply pointless_eval. assumption. Qed.
+
+Example pointless_demo :
+  let s := [SExpr None (EBin (U "/") (ENum (NInt 1)) (EVar (U "x"))); SExpr (Some (U "y")) (ENum (NInt 2))] in
+  In (WPointless 0) (lint s) /\ remove_at 0 s = [SExpr (Some (U "y")) (ENum (NInt 2))].
 Proof. vm_compute. split; [tauto|reflexivity]. Qed.
